@@ -490,12 +490,12 @@ class Node:
             cer_timeout = peer.cer_timeout or cer_timeout
 
         if conn.state == PEER_CONNECTED:
-            if conn.is_sender and conn.last_read_since > cea_timeout:
+            if conn.is_sender and conn.ce_wait_time > cea_timeout:
                 self.logger.warning(
                     f"{conn} exceeded CEA timeout, closing connection")
                 self.close_connection_socket(
                     conn, DISCONNECT_REASON_FAILED_CONNECT_CE)
-            elif conn.is_receiver and conn.last_read_since > cer_timeout:
+            elif conn.is_receiver and conn.ce_wait_time > cer_timeout:
                 self.logger.warning(
                     f"{conn} exceeded CER timeout, closing connection")
                 self.close_connection_socket(
@@ -617,6 +617,7 @@ class Node:
         # the wait for the CEA starts now, not when the connection attempt
         # was started
         conn.reset_last_read()
+        conn.reset_ce_wait()
         conn.state = PEER_CONNECTED
         peer = self._find_connection_peer(conn)
         if peer:
